@@ -61,9 +61,11 @@ where Self: Debug + Default + PartialEq + Eq + Clone + 'static
     fn payload_size(payload: &Self::LogPayload) -> u64;
 
     /// Get the next log index from the log id.
+    ///
+    /// Saturates at `u64::MAX`: there is no index after `u64::MAX`.
     fn next_log_index(log_id: Option<&Self::LogId>) -> u64 {
         match log_id {
-            Some(log_id) => Self::log_index(log_id) + 1,
+            Some(log_id) => Self::log_index(log_id).saturating_add(1),
             None => 0,
         }
     }
